@@ -109,6 +109,31 @@ pub fn render_obo(f: &FactSet, rng: &mut Rng, o: &JaxOpts) -> String {
             }
             isa_lines = mixed;
         }
+        // a term may be described by more than one stanza (merged files): the second stanza repeats id,
+        // name and flags and carries some of the is_a tags
+        let mut second_stanza: Option<String> = None;
+        if o.noise && isa_lines.iter().filter(|l| l.starts_with("is_a:")).count() >= 2 && rng.chance(1, 10) {
+            let mut moved: Vec<String> = Vec::new();
+            let keep_n = rng.urange(1, isa_lines.iter().filter(|l| l.starts_with("is_a:")).count() - 1);
+            let mut seen = 0;
+            isa_lines.retain(|l| {
+                if l.starts_with("is_a:") {
+                    seen += 1;
+                    if seen > keep_n {
+                        moved.push(l.clone());
+                        return false;
+                    }
+                }
+                true
+            });
+            let mut t2 = String::from("[Term]\n");
+            t2.push_str(&format!("id: {}\nname: {}\n", hp(t.id), t.name));
+            for l in flag_lines.iter().chain(moved.iter()) {
+                t2.push_str(l);
+                t2.push('\n');
+            }
+            second_stanza = Some(t2);
+        }
         if rng.chance(1, 2) {
             lines.extend(isa_lines);
             if o.noise && rng.chance(1, 3) {
@@ -125,6 +150,9 @@ pub fn render_obo(f: &FactSet, rng: &mut Rng, o: &JaxOpts) -> String {
             s.push('\n');
         }
         stanzas.push(s);
+        if let Some(t2) = second_stanza {
+            stanzas.push(t2);
+        }
     }
     if o.noise {
         stanzas.push(
@@ -155,6 +183,7 @@ pub fn render_obo(f: &FactSet, rng: &mut Rng, o: &JaxOpts) -> String {
         out.push('\n');
         out.push_str(&s);
     }
+    drop_final_newline_sometimes(&mut out, rng);
     out
 }
 
